@@ -1,0 +1,60 @@
+//go:build verif
+
+// Contracts for the seen-message time caches (property C02). Comment-only.
+
+package timecache
+
+// sweep removes exactly the entries whose expiry lies before now, keeps every other entry with
+// its expiry unchanged and adds none.
+//@ func sweep
+//@   property C02
+//@   requires nonnil: m != nil
+//@   modifies map(m)
+//@   loop 1 invariant no-new: forall k string :: k in m ==> old(k in m) && m[k] == old(m[k])
+//@   loop 1 invariant kept: forall k string :: old(k in m) && !(old(m[k]) < now) ==> k in m
+//@   loop 1 invariant swept: forall k string :: $visited[k] && old(k in m) && old(m[k]) < now ==> !(k in m)
+//@   ensures exact: forall k string :: (k in m) == (old(k in m) && !(old(m[k]) < now))
+//@   ensures expiry-kept: forall k string :: k in m ==> m[k] == old(m[k])
+
+//@ monitor FirstSeenCache.lk
+//@   protects map(m)
+//@   invariant nonnil: self.m != nil
+
+//@ func (*FirstSeenCache).Has
+//@   property C02 C16
+//@   modifies monitor(FirstSeenCache.lk)
+//@   ensures membership: result == lin(s in tc.m)
+//@   ensures pure: forall k string :: (k in tc.m) == lin(k in tc.m) && tc.m[k] == lin(tc.m[k])
+//@   ensures released: !held(tc.lk)
+
+//@ func (*FirstSeenCache).Add
+//@   property C02 C16
+//@   modifies monitor(FirstSeenCache.lk), clock
+//@   ensures first: result == !lin(s in tc.m)
+//@   ensures present: s in tc.m
+//@   ensures new-expiry: result ==> tc.m[s] == now + tc.ttl
+//@   ensures first-seen-expiry-kept: !result ==> tc.m[s] == lin(tc.m[s])
+//@   ensures others: forall k string :: k != s ==> (k in tc.m) == lin(k in tc.m) && tc.m[k] == lin(tc.m[k])
+//@   ensures released: !held(tc.lk)
+
+//@ monitor LastSeenCache.lk
+//@   protects map(m)
+//@   invariant nonnil: self.m != nil
+
+//@ func (*LastSeenCache).Add
+//@   property C02 C16
+//@   modifies monitor(LastSeenCache.lk), clock
+//@   ensures first: result == !lin(s in tc.m)
+//@   ensures present: s in tc.m
+//@   ensures refreshed: tc.m[s] == now + tc.ttl
+//@   ensures others: forall k string :: k != s ==> (k in tc.m) == lin(k in tc.m) && tc.m[k] == lin(tc.m[k])
+//@   ensures released: !held(tc.lk)
+
+//@ func (*LastSeenCache).Has
+//@   property C02 C16
+//@   modifies monitor(LastSeenCache.lk), clock
+//@   ensures membership: result == lin(s in tc.m)
+//@   ensures still: (s in tc.m) == lin(s in tc.m)
+//@   ensures refreshed: result ==> tc.m[s] == now + tc.ttl
+//@   ensures others: forall k string :: k != s ==> (k in tc.m) == lin(k in tc.m) && tc.m[k] == lin(tc.m[k])
+//@   ensures released: !held(tc.lk)
